@@ -1,5 +1,6 @@
-(** Lemmas about saving a worklist (C17): CRLF encoding round-trip, file-name check, string conversion. *)
-From Robo Require Import Prelude Str Save.
+(** Lemmas about saving a worklist (C17): newline translation and CRLF round-trip, file-name check on
+    paths, the [with] block, string conversion. *)
+From Robo Require Import Prelude Str Records Params Save.
 #[local] Open Scope string_scope.
 
 (** * String append *)
@@ -12,6 +13,12 @@ Proof. induction s1 as [|a s1 IH]; cbn [append]; [reflexivity|]. rewrite IH. ref
 
 Lemma sv_append_snoc_cons cur a x : (cur ++ String a "") ++ x = cur ++ String a x.
 Proof. rewrite sv_append_assoc. reflexivity. Qed.
+
+Lemma sv_contains_app c s1 s2 : contains_char c (s1 ++ s2) = contains_char c s1 || contains_char c s2.
+Proof.
+  induction s1 as [|a s1 IH]; cbn [append contains_char]; [reflexivity|].
+  rewrite IH. rewrite orb_assoc. reflexivity.
+Qed.
 
 (** * join *)
 
@@ -51,11 +58,109 @@ Proof.
     cbn [append split_on_aux]. rewrite Ascii.eqb_refl. rewrite IH by assumption. reflexivity.
 Qed.
 
-(** * Splitting at CRLF *)
+(** splitting distributes over a separator in the middle *)
+Lemma sv_split_on_app c p q cur :
+  split_on_aux c (p ++ String c q) cur = (split_on_aux c p cur ++ split_on c q)%list.
+Proof.
+  revert cur. induction p as [|a p IH]; intro cur.
+  - cbn [append split_on_aux]. rewrite Ascii.eqb_refl. reflexivity.
+  - cbn [append split_on_aux]. destruct (Ascii.eqb a c).
+    + rewrite IH. reflexivity.
+    + apply IH.
+Qed.
+
+(** no piece contains the separator *)
+Lemma sv_split_on_nosep c s cur : contains_char c cur = false ->
+  Forall (fun x => contains_char c x = false) (split_on_aux c s cur).
+Proof.
+  revert cur. induction s as [|a s IH]; intros cur Hc.
+  - cbn [split_on_aux]. constructor; [exact Hc|constructor].
+  - cbn [split_on_aux]. destruct (Ascii.eqb a c) eqn:E.
+    + constructor; [exact Hc|]. apply IH. reflexivity.
+    + apply IH. rewrite sv_contains_app. rewrite Hc. cbn [contains_char]. rewrite E. reflexivity.
+Qed.
+
+(** * The newline translation *)
 
 Definition sv_cr : ascii := ascii_of_nat 13.
 Definition sv_lf : ascii := ascii_of_nat 10.
 Definition sv_no_cr (s : string) : Prop := contains_char sv_cr s = false.
+Definition sv_no_lf (s : string) : Prop := contains_char sv_lf s = false.
+
+Lemma sv_translate_app s1 s2 : translate_lf (s1 ++ s2) = translate_lf s1 ++ translate_lf s2.
+Proof.
+  induction s1 as [|a s1 IH]; cbn [append translate_lf]; [reflexivity|].
+  rewrite IH. destruct (Ascii.eqb a (ascii_of_nat 10)); reflexivity.
+Qed.
+
+Lemma sv_translate_lf_char : translate_lf lf = crlf.
+Proof. reflexivity. Qed.
+
+(** a text without LF is written as it is *)
+Lemma sv_translate_nolf s : sv_no_lf s -> translate_lf s = s.
+Proof.
+  unfold sv_no_lf, sv_lf. induction s as [|a s IH]; intro H; [reflexivity|].
+  cbn [contains_char] in H. apply orb_false_elim in H. destruct H as [Ha Hs].
+  cbn [translate_lf]. rewrite Ha. rewrite IH by exact Hs. reflexivity.
+Qed.
+
+(** the translated text never has an LF that is not preceded by the CR put there *)
+Lemma sv_translate_head r :
+  match translate_lf r with
+  | String b _ => Ascii.eqb b (ascii_of_nat 10) = false
+  | EmptyString => r = ""
+  end.
+Proof.
+  destruct r as [|b r]; [reflexivity|].
+  cbn [translate_lf]. destruct (Ascii.eqb b (ascii_of_nat 10)) eqn:E; [reflexivity|exact E].
+Qed.
+
+(** the file text in general: every record translated, CRLF between the records *)
+Lemma sv_encode_join recs : encode_file recs = join crlf (map translate_lf recs).
+Proof.
+  unfold encode_file. induction recs as [|x l IH]; [reflexivity|].
+  destruct l as [|y l]; [reflexivity|].
+  change (map translate_lf (x :: y :: l)) with (translate_lf x :: translate_lf y :: map translate_lf l).
+  rewrite !sv_join_cons. rewrite !sv_translate_app. rewrite sv_translate_lf_char. rewrite IH. reflexivity.
+Qed.
+
+Lemma sv_map_translate_nolf recs : Forall sv_no_lf recs -> map translate_lf recs = recs.
+Proof.
+  induction recs as [|x l IH]; intro H; [reflexivity|].
+  inversion H as [|x0 l0 Hx Hl]. subst x0 l0.
+  cbn [map]. rewrite sv_translate_nolf by exact Hx. rewrite IH by exact Hl. reflexivity.
+Qed.
+
+(** for records without LF: the records joined by CRLF *)
+Lemma sv_encode_nolf recs : Forall sv_no_lf recs -> encode_file recs = join crlf recs.
+Proof. intro H. rewrite sv_encode_join. rewrite sv_map_translate_nolf by exact H. reflexivity. Qed.
+
+(** * Splitting at CRLF *)
+
+(** reading the translated text back at CRLF is splitting the original text at LF: for EVERY text *)
+Lemma sv_split_crlf_translate s : forall cur,
+  split_crlf_aux (translate_lf s) cur = split_on_aux (ascii_of_nat 10) s cur.
+Proof.
+  induction s as [|a r IH]; intro cur; [reflexivity|].
+  cbn [translate_lf split_on_aux]. destruct (Ascii.eqb a (ascii_of_nat 10)) eqn:Elf.
+  - change (split_crlf_aux (String (ascii_of_nat 13) (String a (translate_lf r))) cur)
+      with (if Ascii.eqb a (ascii_of_nat 10) then cur :: split_crlf_aux (translate_lf r) ""
+            else split_crlf_aux (String a (translate_lf r)) (cur ++ String (ascii_of_nat 13) "")).
+    rewrite Elf. rewrite IH. reflexivity.
+  - cbn [split_crlf_aux]. destruct (Ascii.eqb a (ascii_of_nat 13)) eqn:Ecr.
+    + pose proof (sv_translate_head r) as Hh.
+      destruct (translate_lf r) as [|b t] eqn:Et.
+      * subst r. reflexivity.
+      * rewrite Hh. apply IH.
+    + apply IH.
+Qed.
+
+Lemma sv_decode_translate s : decode_file (translate_lf s) = split_on sv_lf s.
+Proof. unfold decode_file, split_on, sv_lf. apply sv_split_crlf_translate. Qed.
+
+(** what is read back in general: the text of the worklist split at LF *)
+Lemma sv_decode_encode recs : decode_file (encode_file recs) = split_on sv_lf (str_worklist recs).
+Proof. unfold encode_file, str_worklist. apply sv_decode_translate. Qed.
 
 Lemma sv_split_crlf_piece x rest cur : sv_no_cr x ->
   split_crlf_aux (x ++ rest) cur = split_crlf_aux rest (cur ++ x).
@@ -79,33 +184,12 @@ Proof.
     rewrite sv_split_crlf_sep. rewrite IH by assumption. reflexivity.
 Qed.
 
-Lemma sv_roundtrip recs : recs <> [] -> Forall sv_no_cr recs -> decode_file (encode_file recs) = recs.
-Proof.
-  intros NE H. destruct recs as [|x l]; [congruence|].
-  inversion H as [|x0 l0 Hx Hl]. subst x0 l0.
-  unfold decode_file, encode_file. rewrite sv_split_crlf_join by assumption. reflexivity.
-Qed.
-
-Lemma sv_roundtrip_empty : encode_file [] = "" /\ decode_file "" = [""].
-Proof. split; reflexivity. Qed.
-
-Lemma sv_no_trailing_break recs r :
-  encode_file (recs ++ [r])%list = encode_file recs ++ (match recs with [] => "" | _ :: _ => crlf end) ++ r.
-Proof. unfold encode_file. apply sv_join_snoc. Qed.
-
-(** * save *)
-
-Lemma sv_overwrite name old recs :
-  (name_ok name = true -> save name old recs = (Some (encode_file recs), None)) /\
-  (name_ok name = false -> save name old recs = (old, Some EReject)).
-Proof. unfold save. split; intro H; rewrite H; reflexivity. Qed.
-
 (** * string conversion *)
 
 Lemma sv_str recs : str_worklist recs = join lf recs.
 Proof. reflexivity. Qed.
 
-Lemma sv_str_split recs : recs <> [] -> Forall (fun r => contains_char sv_lf r = false) recs ->
+Lemma sv_str_split recs : recs <> [] -> Forall sv_no_lf recs ->
   split_on sv_lf (str_worklist recs) = recs.
 Proof.
   intros NE H. destruct recs as [|x l]; [congruence|].
@@ -114,9 +198,132 @@ Proof.
   rewrite sv_split_on_join by assumption. reflexivity.
 Qed.
 
-(** * file-name check *)
+(** * round trip *)
+
+(** LF-free records are read back; a bare CR inside a record does no harm *)
+Lemma sv_roundtrip_nolf recs : recs <> [] -> Forall sv_no_lf recs -> decode_file (encode_file recs) = recs.
+Proof. intros NE H. rewrite sv_decode_encode. apply sv_str_split; assumption. Qed.
+
+Lemma sv_roundtrip recs : recs <> [] -> Forall sv_no_cr recs -> Forall sv_no_lf recs ->
+  decode_file (encode_file recs) = recs.
+Proof. intros NE _ H. apply sv_roundtrip_nolf; assumption. Qed.
+
+(** without the LF hypothesis the statement is false *)
+Lemma sv_roundtrip_refuted : exists recs, recs <> [] /\ Forall sv_no_cr recs /\
+  decode_file (encode_file recs) <> recs /\
+  encode_file recs = "a" ++ crlf ++ "b" ++ crlf ++ "c" /\ decode_file (encode_file recs) = ["a"; "b"; "c"].
+Proof.
+  exists ["a" ++ lf ++ "b"; "c"]. split; [discriminate|]. split; [repeat constructor|].
+  split; [vm_compute; discriminate|]. split; vm_compute; reflexivity.
+Qed.
+
+Lemma sv_roundtrip_empty : encode_file [] = "" /\ decode_file "" = [""].
+Proof. split; reflexivity. Qed.
+
+Lemma sv_no_trailing_break recs r :
+  encode_file (recs ++ [r])%list =
+  encode_file recs ++ (match recs with [] => "" | _ :: _ => crlf end) ++ translate_lf r.
+Proof.
+  rewrite !sv_encode_join. rewrite map_app. cbn [map]. rewrite sv_join_snoc.
+  destruct recs; reflexivity.
+Qed.
+
+Lemma sv_no_trailing_break_nolf recs r : sv_no_lf r ->
+  encode_file (recs ++ [r])%list = encode_file recs ++ (match recs with [] => "" | _ :: _ => crlf end) ++ r.
+Proof. intro H. rewrite sv_no_trailing_break. rewrite (sv_translate_nolf r H). reflexivity. Qed.
+
+(** * save *)
+
+(** definitional: this is the file model *)
+Lemma sv_overwrite name old recs :
+  (name_ok name = true -> save name old recs = (Some (encode_file recs), None)) /\
+  (name_ok name = false -> save name old recs = (old, Some EReject)).
+Proof. unfold save. split; intro H; rewrite H; reflexivity. Qed.
+
+(** a second save to the same path: neither the first save nor what was there before leaves a trace *)
+Lemma sv_resave name old r1 r2 : save name (fst (save name old r1)) r2 = save name old r2.
+Proof. unfold save. destruct (name_ok name); reflexivity. Qed.
+
+Lemma sv_save_old_irrelevant name old old' recs : name_ok name = true ->
+  save name old recs = save name old' recs.
+Proof. unfold save. intro H. rewrite H. reflexivity. Qed.
+
+(** * the [with] block *)
+
+Lemma sv_init path : wf_recs (wl_init path) = [] /\ wf_path (wl_init path) = path.
+Proof. split; reflexivity. Qed.
+
+Lemma sv_enter w : wf_recs (wl_enter w) = [] /\ wf_path (wl_enter w) = wf_path w.
+Proof. split; reflexivity. Qed.
+
+Lemma sv_append_recs w rs :
+  wf_recs (wl_append w rs) = (wf_recs w ++ rs)%list /\ wf_path (wl_append w rs) = wf_path w.
+Proof. split; reflexivity. Qed.
+
+Lemma sv_append_append w r1 r2 : wl_append (wl_append w r1) r2 = wl_append w (r1 ++ r2)%list.
+Proof. unfold wl_append. cbn [wf_path wf_recs]. rewrite app_assoc. reflexivity. Qed.
+
+Lemma sv_exit_is_save w p raised old : wf_path w = Some p -> wl_exit w raised old = wl_save w p old.
+Proof. intro H. unfold wl_exit, wl_save. rewrite H. reflexivity. Qed.
+
+Lemma sv_exit_nopath w raised old : wf_path w = None -> wl_exit w raised old = (old, None).
+Proof. intro H. unfold wl_exit. rewrite H. reflexivity. Qed.
+
+Lemma sv_exit_exception w old : wl_exit w true old = wl_exit w false old.
+Proof. reflexivity. Qed.
+
+(** whatever the worklist held before [with], and whatever the file held: after the block the file is
+    exactly the records appended inside the block *)
+Lemma sv_with_block w p rs raised old : wf_path w = Some p -> name_ok p = true ->
+  wl_exit (wl_append (wl_enter w) rs) raised old = (Some (encode_file rs), None).
+Proof.
+  intros Hp Hn. unfold wl_exit, wl_append, wl_enter. cbn [wf_path wf_recs app].
+  rewrite Hp. unfold save. rewrite Hn. reflexivity.
+Qed.
+
+Lemma sv_with_block_refused w p rs raised old : wf_path w = Some p -> name_ok p = false ->
+  wl_exit (wl_append (wl_enter w) rs) raised old = (old, Some EReject).
+Proof.
+  intros Hp Hn. unfold wl_exit, wl_append, wl_enter. cbn [wf_path wf_recs app].
+  rewrite Hp. unfold save. rewrite Hn. reflexivity.
+Qed.
+
+(** the same object used for two blocks in a row *)
+Lemma sv_with_twice w p r1 r2 x1 x2 old : wf_path w = Some p -> name_ok p = true ->
+  let w1 := wl_append (wl_enter w) r1 in
+  let f1 := fst (wl_exit w1 x1 old) in
+  wl_exit (wl_append (wl_enter w1) r2) x2 f1 = (Some (encode_file r2), None).
+Proof. intros Hp Hn w1 f1. apply (sv_with_block w1 p); [exact Hp|exact Hn]. Qed.
+
+(** a [save] to any path inside or outside a block writes the records held at that moment *)
+Lemma sv_wl_save w p old : name_ok p = true -> wl_save w p old = (Some (encode_file (wf_recs w)), None).
+Proof. intro H. unfold wl_save, save. rewrite H. reflexivity. Qed.
+
+(** the tie to the record-level state *)
+Lemma sv_ws_emit w rs : ws_lines (emit w rs) = (ws_lines w ++ map render rs)%list.
+Proof. unfold ws_lines, emit. cbn [w_recs]. apply map_app. Qed.
+
+Lemma sv_ws_clear w : ws_lines (ws_clear w) = [] /\ w_max (ws_clear w) = w_max w /\
+  w_autosplit (ws_clear w) = w_autosplit w /\ w_diti (ws_clear w) = w_diti w /\ w_dev (ws_clear w) = w_dev w.
+Proof. repeat split. Qed.
+
+Lemma sv_ws_file_emit path w rs : ws_file path (emit w rs) = wl_append (ws_file path w) (map render rs).
+Proof. unfold ws_file, wl_append. cbn [wf_path wf_recs]. rewrite sv_ws_emit. reflexivity. Qed.
+
+Lemma sv_ws_file_clear path w : ws_file path (ws_clear w) = wl_enter (ws_file path w).
+Proof. reflexivity. Qed.
+
+Lemma sv_ws_with_block p w rs raised old : name_ok p = true ->
+  wl_exit (ws_file (Some p) (emit (ws_clear w) rs)) raised old = (Some (encode_file (map render rs)), None).
+Proof.
+  intro Hn. rewrite sv_ws_file_emit. rewrite sv_ws_file_clear.
+  apply (sv_with_block (ws_file (Some p) w) p); [reflexivity|exact Hn].
+Qed.
+
+(** * file-name check: one path component *)
 
 Definition sv_dot : ascii := "."%char.
+Definition sv_slash : ascii := "/"%char.
 
 Lemma sv_lds_nodot r cur : contains_char sv_dot r = false -> last_dot_suffix r cur = cur.
 Proof.
@@ -133,42 +340,60 @@ Proof.
   - cbn [append last_dot_suffix]. destruct (Ascii.eqb a "."); apply IH.
 Qed.
 
-Lemma sv_lds_inv r : forall cur sfx, last_dot_suffix r cur = Some sfx ->
-  cur = Some sfx \/ exists p x, r = p ++ String sv_dot x /\ sfx = String sv_dot x.
+(** every string has no dot, or a last dot *)
+Lemma sv_last_dot r : contains_char sv_dot r = false \/
+  exists p x, r = p ++ String sv_dot x /\ contains_char sv_dot x = false.
 Proof.
-  induction r as [|a r IH]; intros cur sfx H.
-  - left. exact H.
-  - cbn [last_dot_suffix] in H. destruct (Ascii.eqb a ".") eqn:E.
-    + apply Ascii.eqb_eq in E. subst a. destruct (IH _ _ H) as [H1|[p [x [H1 H2]]]].
-      * right. exists "", r. injection H1 as H1. split; [reflexivity|]. symmetry. exact H1.
-      * right. exists (String "." p), x. split; [cbn [append]; rewrite H1; reflexivity|exact H2].
-    + destruct (IH _ _ H) as [H1|[p [x [H1 H2]]]].
-      * left. exact H1.
-      * right. exists (String a p), x. split; [cbn [append]; rewrite H1; reflexivity|exact H2].
+  induction r as [|a r IH]; [left; reflexivity|].
+  destruct IH as [IH|[p [x [E Hx]]]].
+  - destruct (Ascii.eqb a sv_dot) eqn:Ea.
+    + apply Ascii.eqb_eq in Ea. subst a. right. exists "", r. split; [reflexivity|exact IH].
+    + left. cbn [contains_char]. rewrite Ea. exact IH.
+  - right. exists (String a p), x. split; [cbn [append]; rewrite E; reflexivity|exact Hx].
 Qed.
 
-Lemma sv_suffix_ext pre x : pre <> "" -> contains_char sv_dot x = false ->
+(** the three cases of [PurePath.suffix]: they cover every name (sv_name_shape) *)
+Lemma sv_suffix_ext pre x : pre <> "" -> x <> "" -> contains_char sv_dot x = false ->
   suffix (pre ++ String sv_dot x) = String sv_dot x.
 Proof.
-  intros NE Hx. destruct pre as [|a p]; [congruence|].
-  cbn [append suffix]. rewrite sv_lds_app by exact Hx. reflexivity.
+  intros NE NX Hx. destruct pre as [|a p]; [congruence|].
+  cbn [append suffix]. rewrite sv_lds_app by exact Hx. destruct x; [congruence|reflexivity].
 Qed.
 
-(** the last extension alone decides *)
-Lemma sv_name_ext pre x : pre <> "" -> contains_char sv_dot x = false ->
-  name_ok (pre ++ "." ++ x) = String.eqb (lower x) "gwl".
+Lemma sv_suffix_trailing_dot pre : suffix (pre ++ ".") = "".
 Proof.
-  intros NE Hx. unfold name_ok. change ("." ++ x) with (String sv_dot x).
-  rewrite sv_suffix_ext by assumption. reflexivity.
+  destruct pre as [|a p]; [reflexivity|].
+  cbn [append suffix]. change "." with (String sv_dot ""). rewrite sv_lds_app by reflexivity. reflexivity.
 Qed.
 
-Lemma sv_name_nodot name : contains_char sv_dot (str_tail name) = false -> name_ok name = false.
+Lemma sv_suffix_nodot name : contains_char sv_dot (str_tail name) = false -> suffix name = "".
 Proof.
-  intro H. unfold name_ok. destruct name as [|a r]; [reflexivity|].
+  intro H. destruct name as [|a r]; [reflexivity|].
   cbn [str_tail] in H. cbn [suffix]. rewrite sv_lds_nodot by exact H. reflexivity.
 Qed.
 
-(** lower-casing: which characters are sent to g, w, l and "." *)
+Lemma sv_name_shape name : contains_char sv_dot (str_tail name) = false \/
+  exists pre x, pre <> "" /\ name = pre ++ String sv_dot x /\ contains_char sv_dot x = false.
+Proof.
+  destruct name as [|a r]; [left; reflexivity|]. cbn [str_tail].
+  destruct (sv_last_dot r) as [H|[p [x [E Hx]]]]; [left; exact H|].
+  right. exists (String a p), x. split; [discriminate|]. split; [cbn [append]; rewrite E; reflexivity|exact Hx].
+Qed.
+
+(** the last extension alone decides *)
+Lemma sv_file_ext pre x : pre <> "" -> contains_char sv_dot x = false ->
+  file_ok (pre ++ "." ++ x) = String.eqb (lower x) "gwl".
+Proof.
+  intros NE Hx. unfold file_ok. change ("." ++ x) with (String sv_dot x).
+  destruct x as [|c x'].
+  - change (String sv_dot "") with ".". rewrite sv_suffix_trailing_dot. reflexivity.
+  - rewrite sv_suffix_ext; [reflexivity|exact NE|discriminate|exact Hx].
+Qed.
+
+Lemma sv_file_nodot name : contains_char sv_dot (str_tail name) = false -> file_ok name = false.
+Proof. intro H. unfold file_ok. rewrite sv_suffix_nodot by exact H. reflexivity. Qed.
+
+(** lower-casing: which characters are sent to g, w, l *)
 Lemma sv_lower_g a : lower_ascii a = "g"%char -> a = "g"%char \/ a = "G"%char.
 Proof.
   destruct a as [b0 b1 b2 b3 b4 b5 b6 b7].
@@ -208,30 +433,163 @@ Proof.
   repeat (destruct H as [H|H]; [subst x; reflexivity|]). destruct H.
 Qed.
 
-Lemma sv_name_gwl base x : base <> "" -> lower x = "gwl" -> name_ok (base ++ "." ++ x) = true.
+Lemma sv_file_gwl base x : base <> "" -> lower x = "gwl" -> file_ok (base ++ "." ++ x) = true.
 Proof.
-  intros NE H. rewrite sv_name_ext; [|exact NE|apply sv_gwl_nodot; exact H].
+  intros NE H. rewrite sv_file_ext; [|exact NE|apply sv_gwl_nodot; exact H].
   rewrite H. reflexivity.
 Qed.
 
-Lemma sv_name_double base x : contains_char sv_dot x = false -> lower x <> "gwl" ->
-  name_ok (base ++ ".gwl" ++ "." ++ x) = false.
+Lemma sv_file_double base x : contains_char sv_dot x = false -> lower x <> "gwl" ->
+  file_ok (base ++ ".gwl" ++ "." ++ x) = false.
 Proof.
-  intros Hx Hl. rewrite <- sv_append_assoc. rewrite sv_name_ext.
+  intros Hx Hl. rewrite <- sv_append_assoc. rewrite sv_file_ext.
   - apply String.eqb_neq. exact Hl.
   - destruct base; discriminate.
   - exact Hx.
 Qed.
 
-Lemma sv_name_iff name :
-  name_ok name = true <-> exists base x, base <> "" /\ name = base ++ "." ++ x /\ lower x = "gwl".
+Lemma sv_file_iff name :
+  file_ok name = true <-> exists base x, base <> "" /\ name = base ++ "." ++ x /\ lower x = "gwl".
 Proof.
   split.
-  - unfold name_ok. intro H. apply String.eqb_eq in H.
-    destruct name as [|a r]; [discriminate H|]. cbn [suffix] in H.
-    destruct (last_dot_suffix r None) as [sfx|] eqn:E; [|discriminate H].
-    destruct (sv_lds_inv r None sfx E) as [E1|[p [x [E1 E2]]]]; [discriminate E1|].
-    subst sfx r. change (lower (String sv_dot x)) with (String "." (lower x)) in H. injection H as H.
-    exists (String a p), x. split; [discriminate|]. split; [reflexivity|exact H].
-  - intros [base [x [NE [E H]]]]. subst name. apply sv_name_gwl; assumption.
+  - intro H. destruct (sv_name_shape name) as [Hn|[pre [x [NE [E Hx]]]]].
+    + rewrite sv_file_nodot in H by exact Hn. discriminate H.
+    + subst name. change (String sv_dot x) with ("." ++ x) in H. rewrite sv_file_ext in H by assumption.
+      apply String.eqb_eq in H. exists pre, x. split; [exact NE|]. split; [reflexivity|exact H].
+  - intros [base [x [NE [E H]]]]. subst name. apply sv_file_gwl; assumption.
+Qed.
+
+(** * file-name check: paths *)
+
+Lemma sv_last_app {A} (l1 l2 : list A) d : l2 <> [] -> last (l1 ++ l2)%list d = last l2 d.
+Proof.
+  intro NE. induction l1 as [|a l1 IH]; [reflexivity|].
+  cbn [app last]. destruct (l1 ++ l2)%list as [|b t] eqn:E.
+  - apply app_eq_nil in E. destruct E as [_ E]. congruence.
+  - exact IH.
+Qed.
+
+Lemma sv_parts_app dir q : path_parts (dir ++ "/" ++ q) = (path_parts dir ++ path_parts q)%list.
+Proof.
+  unfold path_parts, split_on. change ("/" ++ q) with (String "/"%char q).
+  rewrite sv_split_on_app. apply filter_app.
+Qed.
+
+(** a directory prefix does not matter *)
+Lemma sv_basename_dir dir q : path_parts q <> [] -> basename (dir ++ "/" ++ q) = basename q.
+Proof. intro H. unfold basename. rewrite sv_parts_app. apply sv_last_app. exact H. Qed.
+
+(** trailing "/", "/." , "//" ... are skipped *)
+Lemma sv_basename_skip dir q : path_parts q = [] -> basename (dir ++ "/" ++ q) = basename dir.
+Proof. intro H. unfold basename. rewrite sv_parts_app. rewrite H. rewrite app_nil_r. reflexivity. Qed.
+
+Lemma sv_basename_trailing_slash p : basename (p ++ "/") = basename p.
+Proof. apply (sv_basename_skip p ""). reflexivity. Qed.
+
+Lemma sv_parts_plain name : contains_char sv_slash name = false -> name <> "" -> name <> "." ->
+  path_parts name = [name].
+Proof.
+  intros Hs N1 N2. unfold path_parts, split_on.
+  rewrite <- (sv_append_nil_r name) at 1. rewrite sv_split_on_piece by exact Hs.
+  cbn [split_on_aux append filter]. unfold path_component.
+  destruct (String.eqb name "") eqn:E1; [apply String.eqb_eq in E1; congruence|].
+  destruct (String.eqb name ".") eqn:E2; [apply String.eqb_eq in E2; congruence|].
+  reflexivity.
+Qed.
+
+Lemma sv_basename_plain name : contains_char sv_slash name = false -> name <> "" -> name <> "." ->
+  basename name = name.
+Proof. intros Hs N1 N2. unfold basename. rewrite sv_parts_plain by assumption. reflexivity. Qed.
+
+Lemma sv_basename_dir_plain dir name : contains_char sv_slash name = false -> name <> "" -> name <> "." ->
+  basename (dir ++ "/" ++ name) = name.
+Proof.
+  intros Hs N1 N2. rewrite sv_basename_dir.
+  - apply sv_basename_plain; assumption.
+  - rewrite sv_parts_plain by assumption. discriminate.
+Qed.
+
+(** the name is one component: it has no "/" and is not "."; it is "" exactly when there is no component *)
+Lemma sv_basename_component p :
+  contains_char sv_slash (basename p) = false /\ basename p <> "." /\
+  (basename p = "" <-> path_parts p = []).
+Proof.
+  unfold basename.
+  assert (F : Forall (fun c => contains_char sv_slash c = false /\ path_component c = true) (path_parts p)).
+  { unfold path_parts. apply Forall_forall. intros c Hc. apply filter_In in Hc. destruct Hc as [Hin Hpc].
+    split; [|exact Hpc].
+    pose proof (sv_split_on_nosep sv_slash p "" eq_refl) as G.
+    rewrite Forall_forall in G. apply G. exact Hin. }
+  destruct (path_parts p) as [|c t] eqn:E.
+  - cbn [last]. split; [reflexivity|]. split; [discriminate|]. split; reflexivity.
+  - assert (L : contains_char sv_slash (last (c :: t) "") = false /\ path_component (last (c :: t) "") = true).
+    { inversion F as [|c0 t0 Hc Ht]. subst c0 t0.
+      clear E F. revert c Hc. induction Ht as [|y t Hy Ht IH]; intros c Hc; [exact Hc|].
+      change (last (c :: y :: t) "") with (last (y :: t) ""). apply IH. exact Hy. }
+    destruct L as [L1 L2]. split; [exact L1|].
+    unfold path_component in L2. apply negb_true_iff in L2. apply orb_false_elim in L2.
+    destruct L2 as [L2 L3]. apply String.eqb_neq in L2. apply String.eqb_neq in L3.
+    split; [exact L3|]. split; [intro Q; congruence|discriminate].
+Qed.
+
+(** the check on a path is the check on its last component *)
+Lemma sv_name_basename p : name_ok p = file_ok (basename p).
+Proof. reflexivity. Qed.
+
+Lemma sv_name_plain name : contains_char sv_slash name = false -> name_ok name = file_ok name.
+Proof.
+  intro Hs. unfold name_ok.
+  destruct (String.eqb name "") eqn:E1; [apply String.eqb_eq in E1; subst name; reflexivity|].
+  destruct (String.eqb name ".") eqn:E2; [apply String.eqb_eq in E2; subst name; reflexivity|].
+  apply String.eqb_neq in E1. apply String.eqb_neq in E2.
+  rewrite sv_basename_plain by assumption. reflexivity.
+Qed.
+
+Lemma sv_name_dir dir name : contains_char sv_slash name = false -> name <> "" -> name <> "." ->
+  name_ok (dir ++ "/" ++ name) = file_ok name.
+Proof. intros Hs N1 N2. unfold name_ok. rewrite sv_basename_dir_plain by assumption. reflexivity. Qed.
+
+Lemma sv_name_trailing_slash p : name_ok (p ++ "/") = name_ok p.
+Proof. unfold name_ok. rewrite sv_basename_trailing_slash. reflexivity. Qed.
+
+Lemma sv_name_iff path :
+  name_ok path = true <->
+  exists stem x, stem <> "" /\ basename path = stem ++ "." ++ x /\ lower x = "gwl".
+Proof. unfold name_ok. apply sv_file_iff. Qed.
+
+(** a ".gwl" in a directory name does not count; a dot in a directory name does no harm *)
+Lemma sv_name_dir_only dir name : contains_char sv_slash name = false -> name <> "" -> name <> "." ->
+  file_ok name = false -> name_ok (dir ++ "/" ++ name) = false.
+Proof. intros Hs N1 N2 H. rewrite sv_name_dir by assumption. exact H. Qed.
+
+Lemma sv_name_path_gwl dir stem x : stem <> "" -> contains_char sv_slash stem = false -> lower x = "gwl" ->
+  name_ok (dir ++ "/" ++ stem ++ "." ++ x) = true /\ name_ok (stem ++ "." ++ x) = true.
+Proof.
+  intros NE Hs Hx.
+  assert (Hsl : contains_char sv_slash (stem ++ "." ++ x) = false).
+  { rewrite !sv_contains_app. rewrite Hs. cbn [orb].
+    apply sv_lower_gwl in Hx. cbn in Hx.
+    repeat (destruct Hx as [Hx|Hx]; [subst x; reflexivity|]). destruct Hx. }
+  split.
+  - rewrite sv_name_dir.
+    + apply sv_file_gwl; assumption.
+    + exact Hsl.
+    + destruct stem; [congruence|discriminate].
+    + destruct stem as [|a [|b s]]; [congruence| |discriminate].
+      cbn [append]. intro Q. injection Q as Q1 Q2. apply sv_lower_gwl in Hx. cbn in Hx.
+      repeat (destruct Hx as [Hx|Hx]; [subst x; discriminate Q2|]). destruct Hx.
+  - rewrite sv_name_plain by exact Hsl. apply sv_file_gwl; assumption.
+Qed.
+
+(** combined forms used by the property file *)
+Lemma sv_basename_dir_both dir name : contains_char sv_slash name = false -> name <> "" -> name <> "." ->
+  basename (dir ++ "/" ++ name) = name /\ basename name = name.
+Proof. intros H1 H2 H3. split; [apply sv_basename_dir_plain|apply sv_basename_plain]; assumption. Qed.
+
+Lemma sv_suffix_spec pre x :
+  (pre <> "" -> x <> "" -> contains_char sv_dot x = false -> suffix (pre ++ String sv_dot x) = String sv_dot x) /\
+  suffix (pre ++ ".") = "" /\
+  (contains_char sv_dot (str_tail pre) = false -> suffix pre = "").
+Proof.
+  split; [apply sv_suffix_ext|]. split; [apply sv_suffix_trailing_dot|apply sv_suffix_nodot].
 Qed.
